@@ -437,3 +437,36 @@ def any_doc(rng):
 
 def strip_surrogates(s):
     return "".join(ch for ch in s if not (0xD800 <= ord(ch) <= 0xDFFF))
+
+
+# ---- systematic small-alphabet sweeps (added after round 4 of the seeded changes) ---------------------------------------------------
+def boundary_codepoints():
+    """every code point of the ranges in which the library's character classes have their edges (Latin-1 and its neighbours, general
+    punctuation / spaces, CJK punctuation, the ends of the planes)"""
+    cps = list(range(0, 0x300)) + list(range(0x1680, 0x1681)) + list(range(0x2000, 0x2070)) + list(range(0x2E00, 0x2E10)) + list(range(0x3000, 0x3040))
+    cps += [0x37E, 0x387, 0x55A, 0x589, 0x5BE, 0x10FB, 0x180E, 0x1FFF, 0x20A0, 0x2100, 0x2190, 0x2FFF, 0xD7FF, 0xE000, 0xFE50, 0xFEFF, 0xFF01, 0xFF0A, 0xFF5E, 0xFFFD,
+            0xFFFE, 0xFFFF, 0x10000, 0x1F600, 0x10FFFF]
+    return [c for c in cps if not 0xD800 <= c <= 0xDFFF]
+
+
+CP_TEMPLATES = ["*{c}a*", "*a{c}*", "{c}*a*", "**a**{c}", "_a{c}_ b", "a{c}_b_", "~~{c}~~", "~~a~~{c}", '"{c}"', "'{c}' x", "a{c}'s \"q{c}\"", "[{c}]({c})", "[a]({c} \"{c}\")",
+                "\\{c}", "<{c}>", "<a{c}b@c.d>", "# {c}", "-{c}x", "1.{c}x", "{c}- x", ">{c}q", "`{c}`", "```{c}\nc\n```", "{c}", "a{c}\n===", "|{c}|\n|-|\n", "&{c};", "http://x.y/{c}",
+                "{c}www.ex.com{c}", "[r]:{c}/u\n\n[r]", "  {c}  x", "x  {c}\ny", "(c{c}) ...{c} --{c}"]
+
+
+def delimiter_words(kinds):
+    """words whose ends carry delimiter runs of the given kinds: '' | k1 | k2 on either side of a letter"""
+    ends = [""] + list(kinds)
+    return [p + ch + s for (p, ch, s) in ((p, "abcxyz"[(i + j) % 6], s) for i, p in enumerate(ends) for j, s in enumerate(ends))]
+
+
+DELIM_KIND_PAIRS = [("*", "~~"), ("*", "__"), ("_", "**"), ("**", "~~"), ("*", "_"), ("*", "**"), ("_", "~~"), ("__", "**")]
+
+
+def delimiter_docs(kinds, maxlen):
+    """every sequence of 1..maxlen delimiter words, joined by blanks (all crossings / nestings / strays of two delimiter kinds)"""
+    import itertools
+    words = delimiter_words(kinds)
+    for n in range(1, maxlen + 1):
+        for seq in itertools.product(words, repeat=n):
+            yield " ".join(seq)
